@@ -44,6 +44,30 @@ def check(ctx):
     ctx.attempt(common.outparam_truthiness, [f for f in ctx.repo.funcs.values() if f.module.name.endswith('containers.containers')])
     from .c12 import _eq_hash          # filter_duplicates relies on TRS equality / hashing
     ctx.attempt(_eq_hash)
+    ctx.attempt(_instance_check_first)
+    ctx.attempt(common.mixed_pop_ends, [f for f in ctx.repo.funcs.values() if f.module.name.endswith('containers.containers')])
+
+
+def _instance_check_first(ctx):
+    """filter_duplicates finds repeated INSTANCES under every method: inside
+    its element loop nothing can `continue` before the element has gone
+    through the `in unique` / `unique.add` bookkeeping."""
+    fi = ctx.repo.func('_TRSTractList.filter_duplicates')
+    loops = [n for n in fi.node.body if isinstance(n, ast.For)]
+    construct = 'filter_duplicates: the same-instance check runs for every element, whatever the method'
+    if len(loops) != 1:
+        ctx.undecided('ORDER', construct, 'element loop not recognised')
+        return
+    body = loops[0].body
+    first_unique = next((i for i, st in enumerate(body) if any(isinstance(x, ast.Name) and x.id == 'unique' for x in ast.walk(st))), None)
+    if first_unique is None:
+        ctx.undecided('ORDER', construct, 'no `unique` bookkeeping found')
+        return
+    early = [st for st in body[:first_unique] if any(isinstance(x, ast.Continue) for x in ast.walk(st))]
+    ctx.check(not early, 'ORDER', construct, 'no `continue` before the bookkeeping',
+              f"`{norm(early[0])[:70] if early else ''}` skips an element before it is compared with the instances already seen: "
+              f"with that method a Tract object that occurs twice in the list is no longer reported / dropped",
+              key="ORDER|filter_duplicates|skip-before-instance-check", where=common.loc(fi, early[0]) if early else None)
 
 
 def _entry_paths(ctx, base):
